@@ -234,7 +234,7 @@ def case_eigh(ctx, rng):
     if not x.blocks:
         return
     x = maybe_tiny(ctx, rng, x)
-    if rng.random() < 0.15:
+    if rng.random() < 0.15 and "integer-typed-blocks" not in feats:
         # nearly diagonal hermitian blocks: O(1) diagonal, tiny couplings
         for s_, b_ in list(x.blocks.items()):
             d_ = np.diag(np.diag(b_).real)
@@ -288,16 +288,22 @@ def case_solve(ctx, rng):
     if a is None or not a.blocks:
         return
     # well conditioned square blocks
+    intblocks = "integer-typed-blocks" in feats
     for s, b in list(a.blocks.items()):
-        a.blocks[s] = b + 3.0 * np.eye(b.shape[0])
-    fa = rng.choice([1.0, 1.0, 1.0, 1e-9, 1e6])
+        if intblocks:
+            # integer-typed and strictly diagonally dominant
+            b = np.asarray(b)
+            a.blocks[s] = (b - np.diag(np.diag(b)) + np.diag(np.abs(b).sum(axis=1) + 1)).astype(b.dtype)
+        else:
+            a.blocks[s] = b + 3.0 * np.eye(b.shape[0])
+    fa = 1.0 if intblocks else rng.choice([1.0, 1.0, 1.0, 1e-9, 1e6])
     fb = rng.choice([1.0, 1.0, 1.0, 1e-9, 1e-12, 1e5])
     if fa != 1.0:
         for s in list(a.blocks):
             a.blocks[s] = a.blocks[s] * fa
     _, _, kind = gen.pick_class(sr, rng, sym, ferm)
     kind = "static" if type(a).static_symmetry else "generic_str"
-    b = gen.make_array(sr, rng, sym, [a.indices[0]], fermionic=ferm, kind=kind, values=gen.Values(rng, "gauss", str(next(iter(a.blocks.values())).dtype)), label=77, sparsity=rng.choice([0.0, 0.4]))
+    b = gen.make_array(sr, rng, sym, [a.indices[0]], fermionic=ferm, kind=kind, values=gen.Values(rng, "gauss", "float64" if intblocks else str(next(iter(a.blocks.values())).dtype)), label=77, sparsity=rng.choice([0.0, 0.4]))
     if fb != 1.0:
         for s in list(b.blocks):
             b.blocks[s] = b.blocks[s] * fb
